@@ -1,7 +1,7 @@
 // C07: CorrelationTrendIndicator in [-1, 1].  Cauchy-Schwarz for the sums the code forms (window of k <= N values, multiplier N):
 // pad both sequences with N - k zeros; then  N*Sxx - Sx^2, N*Syy - Sy^2, N*Sxy - Sx*Sy  are N times the centred sums of the padded
 // sequences, for which Cauchy-Schwarz is proved one term at a time.
-use crate::props::c07_vsct_bound::*;
+use crate::props::c00_centered::*;
 
 pub open spec fn idx(k: nat) -> Seq<T> { Seq::new(k, |i: int| mk(i as real)) }
 pub proof fn lemma_idx_sums(k: nat)
